@@ -68,19 +68,21 @@ def classify(case, d):
     return None
 
 
-def fixed_horizon_bound_violation(case):
+def fixed_horizon_bound_violation(case, parametric=False):
     """True if the interval lengths are numeric (fixed T, grid not localized, not free) and one of the intervals is
     shorter than min / longer than max: no NLP constraint can enforce the bound, the problem must be refused"""
     from ..common import Fr
     m = case["method"]
     g = m.get("grid") or {}
-    if "fixed" not in case.get("T", {}):
+    Th = case.get("T", {})
+    if "fixed" not in Th and not (parametric and "param" in Th):
         return False          # (the interval lengths do not depend on t0)
     if g.get("localize_t0") or g.get("localize_T") or g.get("class", "Uniform") == "Free":
         return False
     lo = float(Fr(g["min"])) if g.get("min") is not None else 0.0
     hi = float(Fr(g["max"])) if g.get("max") is not None else float("inf")
-    N, T = m["N"], float(Fr(case["T"]["fixed"]))
+    N = m["N"]
+    T = float(Fr(Th["fixed"])) if "fixed" in Th else float(Fr(case["param_values"]["p"][Th["param"]]))
     cls = g.get("class", "Uniform")
     if cls == "Uniform":
         nodes = [i / N for i in range(N + 1)]
@@ -114,6 +116,12 @@ class C06Prop(NlpProp):
             raised = "error" in r and "min/max bounds of the time grid" in str(r.get("error"))
             if viol and raised:
                 refused += 1
+                continue
+            if not viol and fixed_horizon_bound_violation(case, parametric=True) and "error" not in r:
+                # the horizon is a parameter: its value is only known when it is set; recorded finding
+                extra_dis.append({"property": self.pid, "case": case, "points": pts, "finding_key": "F56-grid-bounds-parametric-horizon",
+                                  "what": [{"what": "horizon given by a parameter: a control interval violates the grid's declared min/max at the "
+                                                    "parameter's value, yet no NLP constraint exists and nothing is raised"}]})
                 continue
             if viol and not raised and "error" not in r:
                 extra_dis.append({"property": self.pid, "case": case, "points": pts, "finding_key": None,
